@@ -6,6 +6,7 @@ campaign over all signature shapes up to 4 parameters x 3 results x 10 profiles)
 -/
 import Gv.Model.Signature
 import Gv.Proofs.SignatureLemmas
+import Gv.Model.Facts
 
 namespace Gv.Props.C14
 open Gv.Str Gv.Signature Gv.Settings
@@ -198,5 +199,35 @@ def exampleObj : Obj :=
 
 example : (parse {} exampleObj).toOption.map (fun d => (d.roles, d.returnError, d.updateTarget)) =
     some ([Role.source], true, false) := by rfl
+
+
+/-! ### Every consumer of a signature parses it with the profile of the model (regenerated tie) -/
+
+set_option maxRecDepth 20000 in
+/-- the `method.ParseOpts` literals of the source tree are exactly the five consumers of the model, each with the
+parameter mode, the level of `arg:context:regex`, and the converter/update/type-parameter switches of `consumerOpts` -/
+theorem C14_consumers_match_source :
+    Gv.Facts.parseOptsSites = (allConsumers.map Consumer.site) ∧
+    Gv.Facts.structMethodContextRegex = ".*" ∧ Gv.Facts.multiSourceEnabledSites = [] := by decide
+
+/-- the context pattern of the method's own signature, of its constructor and of its `map … | FUNC` functions
+is resolved once, at method level: the same in all three places -/
+theorem C14_context_pattern_same_everywhere_in_method (cli conv meth : Option S) :
+    effPattern .converterMethod cli conv meth = effPattern .dflt cli conv meth ∧
+    effPattern .converterMethod cli conv meth = effPattern .mapFunc cli conv meth := ⟨rfl, rfl⟩
+
+/-- inheritance of the pattern: a method-level value wins, then the converter's, then the command line's -/
+theorem C14_context_pattern_inherits (cli conv meth : Option S) :
+    (∀ m, meth = some m → effPattern .converterMethod cli conv meth = some m) ∧
+    (∀ c, meth = none → conv = some c → effPattern .converterMethod cli conv meth = some c) ∧
+    (meth = none → conv = none → effPattern .converterMethod cli conv meth = cli) ∧
+    (∀ c, conv = some c → effPattern .extend cli conv meth = some c) ∧
+    (conv = none → effPattern .extend cli conv meth = cli) := by
+  refine ⟨?_, ?_, ?_, ?_, ?_⟩
+  · intro m h; subst h; rfl
+  · intro c h1 h2; subst h1; subst h2; rfl
+  · intro h1 h2; subst h1; subst h2; cases cli <;> rfl
+  · intro c h; subst h; rfl
+  · intro h; subst h; cases cli <;> rfl
 
 end Gv.Props.C14
